@@ -11,6 +11,7 @@ from ..storejudge import decode_store, STORE_OPS, underflows_to_zero, UNDERFLOW_
 from . import c01
 
 ID = 'C03'
+TECHNIQUE = 'runtime monitoring: store / resize / arithmetic-into-register events under wrap judged against the residue model (exact ints), shift invariance checked relationally between real executions'
 TITLE = 'wrap = residue mod 2^n_word'
 RULE = ('store events under overflow=wrap (value and raw mode; core domain, and n_word 64..256 with Python-integer inputs): the stored code must be '
         'inside the range and congruent to ROUND(v*2^n_frac) modulo 2^n_word; inside one event, inputs that differ by a multiple of '
